@@ -56,21 +56,33 @@ let () = iter_lines (fun line ->
       print_endline (string_of_z (Gen_P4.coq_GetHashCodePart (zi hc) (arr (zs s)) full bidx l nl (zi 1000) idx))
      | _ -> print_endline "?")
   | "p4seq" :: h :: ops ->
+    (* the hand composition p4_add / the generated Gen_P4.Remove on mShortHashes, AND the fully generated Gen_P4A.AddCrt / Remove
+       (pointer state as two scalars) run side by side: same bytes, and the generated memory-pool index / WasFull are printed *)
     let hc = int_of_string h in
     let st = ref (Gen_P4.pvSetEmpty (zi hc) (fun _ -> zi 0) (zi 0)) in
+    let ptr = ref (zi 0) and stt = ref (zi (int_of_z mm - 1)) in
     let buf = Buffer.create 64 in
+    let same a b = (show a hc = show b hc) in
+    let tail () = Printf.sprintf " m%s%s;" (string_of_z (Gen_P4A.pvGetMemPoolIndex !st !ptr !stt))
+                    (if Gen_P4A.coq_WasFull !st !ptr !stt then "W" else "w") in
     let rec go = function
       | "a" :: x :: l :: p :: r ->
-        (match P4_Model.p4_add (zi hc) !st (z_of_string x) (z_of_string l) (z_of_string p) with
-         | Ok s' -> st := s'; Buffer.add_string buf (show s' hc ^ ";"); go r
-         | _ -> Buffer.add_string buf "Stuck;")
+        (match P4_Model.p4_add (zi hc) !st (z_of_string x) (z_of_string l) (z_of_string p),
+               Gen_P4A.coq_AddCrt (zi hc) mm !st !ptr !stt (z_of_string x) (z_of_string l) (z_of_string p)
+                 (zi 1008) (zi 1008) (zi 1016) (zi 1016) (zi 1024) (zi 1024) (zi 1032) (zi 1032) (zi 1040) (zi 1040) with
+         | Ok s', Ok (((_, s2), p2), t2) ->
+           if not (same s' s2) then Buffer.add_string buf "P4A-MISMATCH;" else begin
+             st := s'; ptr := p2; stt := t2; Buffer.add_string buf (show s' hc ^ tail ()); go r end
+         | _, _ -> Buffer.add_string buf "Stuck;")
       | "r" :: idx :: r ->
         let c = int_of_z (Gen_P4.pvGetCount !st) in
-        (* items <> null iff the bucket has elements; iter = items + idx *)
-        let items = if c = 0 then zi 0 else zi 1000 in
-        (match Gen_P4.coq_Remove (zi hc) mm !st (z_of_zarith (Z.add (Z.of_int (if c = 0 then 0 else 1000)) (Z.of_string idx))) items (zi 4) (z_of_string idx) with
-         | Ok (_, s') -> st := s'; Buffer.add_string buf (show s' hc ^ ";"); go r
-         | _ -> Buffer.add_string buf "Stuck;")
+        let iter = z_of_zarith (Z.add (zarith_of_z !ptr) (Z.of_string idx)) in
+        (match Gen_P4.coq_Remove (zi hc) mm !st iter !ptr (Gen_P4A.pvGetMemPoolIndex !st !ptr !stt) (z_of_string idx),
+               Gen_P4A.coq_Remove (zi hc) mm !st !ptr !stt iter (z_of_string idx) with
+         | Ok (_, s'), Ok (((_, s2), p2), t2) ->
+           if not (same s' s2) then Buffer.add_string buf "P4A-MISMATCH;" else begin
+             ignore c; st := s'; ptr := p2; stt := t2; Buffer.add_string buf (show s' hc ^ tail ()); go r end
+         | _, _ -> Buffer.add_string buf "Stuck;")
       | "g" :: idx :: bidx :: l :: nl :: full :: r ->
         Buffer.add_string buf (string_of_z (Gen_P4.coq_GetHashCodePart (zi hc) !st (z_of_string full) (z_of_string bidx) (z_of_string l) (z_of_string nl) (zi 1000) (z_of_string idx)) ^ ";"); go r
       | _ -> () in
